@@ -38,3 +38,21 @@ PROPS["C17"] = dict(
     assumptions=["table counts and sizes fit the 32-bit header fields (Fits)",
                  "strings are NUL-free well-formed UTF-8 (the API hands out &str)"],
 )
+
+PROPS["C18"] = dict(
+    rule=("SoftF32 (Lean) vs hardware binary32 on random and domain-specific operand pairs (bit-exact); tile_to_world and "
+          "world_to_tile on all 4096 tiles plus tile centres and random world points; generated WDT files (versions "
+          "Classic..Dragonflight x terrain/WMO-only x sparse/dense/corner tile grids x MAID/MWMO/MODF, 1 in 5 deliberately "
+          "not well-formed) written by the crate, read by the crate and by the Lean model, truncated at 15 offsets, "
+          "converted between versions; generated WDL files (9 versions x 0..4096 tiles x holes none/all/some x WMO / ML "
+          "chunks) checked by an independent Lean chunk walker and by the model's offset-table function. non-trivial = a "
+          "tile that round-trips / a well-formed file with content; distinct by FNV hash of its description"),
+    trusted_base=COMMON_TB + [
+        "Lib.SoftF32: my exact binary32 model (validated bit-exactly against hardware every run); the coordinate "
+        "theorem is `decide +kernel` over all 64 indices of each axis on that model",
+        "fixed-layout chunk payloads (MPHD, MAIN, MAID, MODF entries, MARE heights) are little-endian field dumps: the "
+        "harness builds the expected payloads itself field by field; the Lean model carries them as bytes",
+        "WDL header chunks (MWMO/MWID/MODF/ML**) are opaque in the layout theorem"],
+    assumptions=["WDT WellFormed: sizes fit, flags <= 0xFFFF, MWMO present only where the version rule emits it, MAID only "
+                 "for BfA+, names non-empty NUL-free", "WDL TileOk: MARE payload = TOTAL_COUNT*2 bytes, MAHO = MASK_COUNT*2"],
+)
